@@ -27,8 +27,37 @@ ASSUMPTIONS = {
     "A-BYTESIO": "BytesIO: read(n) returns data[pos:pos+n] and advances pos by the length obtained; write appends at the end; seek/getvalue as documented",
     "A-STRUCT": "struct.pack(fmt, v) is a total injective function of v on the format's range with the format's width (4/8 bytes); unpack is its inverse and raises struct.error on wrong length",
     "A-UTF8": "str.encode('utf-8') is total and injective on surrogate-free str; encode(s)==b'' iff s==''; str(b,'utf-8') inverts it and raises UnicodeDecodeError on invalid input",
+    "A-LEN": "len() of any bytes/str object is below 2**63 (CPython Py_ssize_t)",
+    "A-BYTES": "every element of a bytes value is in 0..255",
     "A-TOBYTES": "(x).to_bytes(1,'little') == bytes([x]) for 0<=x<256 else OverflowError; int.from_bytes(b,'little') is the little-endian value",
 }
+
+
+OBJ_DSL = {
+    "is_none": lambda t: sv_bool(PyObj.is_PNone(t)),
+    "is_placeholder": lambda t: sv_bool(PyObj.is_PPlaceholder(t)),
+    "is_bool": lambda t: sv_bool(PyObj.is_PBool(t)),
+    "is_int": lambda t: sv_bool(z3.Or(PyObj.is_PInt(t), PyObj.is_PBool(t), PyObj.is_PEnum(t))),
+    "as_int": lambda t: sv_int(obj_int(t)),
+    "is_float": lambda t: sv_bool(PyObj.is_PFloat(t)),
+    "is_str": lambda t: sv_bool(PyObj.is_PStr(t)),
+    "as_str": lambda t: sv_str(PyObj.pstr(t)),
+    "is_bytes": lambda t: sv_bool(PyObj.is_PBytes(t)),
+    "as_bytes": lambda t: sv_bytes(PyObj.pbytes(t)),
+    "is_msg": lambda t: sv_bool(PyObj.is_PMsg(t)),
+    "is_dt": lambda t: sv_bool(PyObj.is_PDatetime(t)),
+    "dt_us": lambda t: sv_int(PyObj.pdt_us(t)),
+    "is_td": lambda t: sv_bool(PyObj.is_PTimedelta(t)),
+    "td_us": lambda t: sv_int(PyObj.ptd_us(t)),
+    "is_list": lambda t: sv_bool(PyObj.is_PList(t)),
+    "is_dict": lambda t: sv_bool(PyObj.is_PDict(t)),
+    "is_enum": lambda t: sv_bool(PyObj.is_PEnum(t)),
+}
+
+
+def obj_int(t):
+    return z3.If(PyObj.is_PBool(t), z3.If(PyObj.pbool(t), z3.IntVal(1), z3.IntVal(0)),
+                 z3.If(PyObj.is_PEnum(t), PyObj.penum_val(t), PyObj.pint(t)))
 
 
 class SpecLib:
@@ -59,7 +88,8 @@ class SpecLib:
                 self.consts[node.targets[0].id] = getattr(mod, node.targets[0].id)
 
     def has(self, name):
-        return name in self.src or name in ("B", "EMPTY", "LEN") or name in getattr(self, "consts", {})
+        return (name in self.src or name in ("B", "EMPTY", "LEN") or name in OBJ_DSL
+                or name in getattr(self, "consts", {}))
 
     @staticmethod
     def ann_kind(a):
@@ -75,7 +105,13 @@ class SpecLib:
         node, mod = self.src[name]
         pk = [self.ann_kind(a.annotation) for a in node.args.args]
         rk = self.ann_kind(node.returns)
-        f = z3.RecFunction(name, *[KIND_SORT[k] for k in pk], KIND_SORT[rk])
+        unint = any(isinstance(d, ast.Name) and d.id == "uninterpreted" for d in node.decorator_list)
+        if unint:
+            f = z3.Function(name, *[KIND_SORT[k] for k in pk], KIND_SORT[rk])
+            self.defined.add(name)
+            self.uninterpreted = getattr(self, "uninterpreted", set()) | {name}
+        else:
+            f = z3.RecFunction(name, *[KIND_SORT[k] for k in pk], KIND_SORT[rk])
         self.z3fn[name] = (f, pk, rk)
         return self.z3fn[name]
 
@@ -135,6 +171,8 @@ class SpecLib:
             return sv_bytes(z3.Unit(ex.as_int(pos[0], st)))
         if name == "LEN":
             return sv_int(z3.Length(pos[0].t))
+        if name in OBJ_DSL:
+            return OBJ_DSL[name](to_obj(pos[0]))
         if name in getattr(self, "consts", {}) and name not in self.src:
             return from_python(self.consts[name])
         f, pk, rk = self.declare(name)
@@ -239,7 +277,12 @@ class SpecLib:
         if name == "len":
             v = pos[0]
             if v.kind in ("bytes", "str"):
-                yield st, sv_int(z3.Length(v.t))
+                st2 = st
+                if not ex.is_spec:
+                    st2 = st.clone()
+                    st2.assume(z3.Length(v.t) < 2 ** 63)      # sys.maxsize
+                    ex.assumption("A-LEN")
+                yield st2, sv_int(z3.Length(v.t))
                 return
             if v.kind == "tuple":
                 yield st, sv_int(len(v.t))
@@ -376,6 +419,8 @@ class SpecLib:
             ex.assumption("A-BYTESIO")
             if name == "write":
                 b = ex.as_bytes(pos[0], st)
+                # the append model of write() is only valid at the end of the buffer
+                ex.oblige(st, f"write-at-end@{ex.cur_line}", p == z3.Length(data), "safety")
                 st2 = st.clone()
                 nd = z3.Concat(data, b)
                 st2.heap[(key, "data")] = sv_bytes(nd)
